@@ -778,7 +778,14 @@ func (g *TxGen) mkUnfreeze() *GenTx {
 func (g *TxGen) mkProposal() *GenTx {
 	a := g.pickSigner()
 	var pc governance.ProposalContent
-	switch g.rng.IntN(5) {
+	kind := g.rng.IntN(5)
+	lowLimits := false
+	if g.h.Sc.IdleOwner != nil && g.h.Sc.Seed%4 == 0 && g.h.Sc.Runtime != nil && g.rng.IntN(2) == 0 {
+		// Scenarios in which nodes sign up for the idle owner's SUSPENDED runtime (limits 4 / 4): the
+		// roothash limits move below what that runtime declares, so its resumption meets them.
+		kind, lowLimits = 4, true
+	}
+	switch kind {
 	case 4:
 		// Roothash parameter change: the limits a runtime descriptor is validated against move below or
 		// above what registered runtimes declare (registered runtimes keep their values; later
@@ -792,6 +799,9 @@ func (g *TxGen) mkProposal() *GenTx {
 		var ch roothash.ConsensusParameterChanges
 		m := []uint32{2, 4, 6, 16, 32, 40}[g.rng.IntN(6)]
 		im := []uint32{0, 2, 4, 8, 32}[g.rng.IntN(5)]
+		if lowLimits {
+			m, im = uint32(2+g.rng.IntN(2)), uint32(g.rng.IntN(4))
+		}
 		switch g.rng.IntN(3) {
 		case 0:
 			ch.MaxRuntimeMessages = &m
